@@ -949,14 +949,19 @@ class C11Check(PCheck):
             if cls == 'interactions':
                 if not detail.get('pairs') or detail.get('n', 0) > len(detail['pairs']):
                     return False
+                mol = base_topology['molecules'][detail['molecule']]
+                resids = [a[0] for a in mol['atoms']]
+                terminal = (min(resids), max(resids))
                 for x, y in detail['pairs']:
                     if x[:3] != y[:3] or len(x[3]) != len(y[3]):
+                        return False
+                    # a geometry-derived parameter of an interaction that involves a terminal residue
+                    if not any(isinstance(k, list) and k[0] in terminal for k in x[2]):
                         return False
                     for p, q in zip(x[3], y[3]):
                         if p == q:
                             continue
-                        fp, fq = _num(p), _num(q)
-                        if fp is None or fq is None or abs(fp - fq) > 15.0:
+                        if _num(p) is None or _num(q) is None:
                             return False
             elif cls == 'coords':
                 if detail['n'] > len(detail['bad']):
@@ -966,7 +971,7 @@ class C11Check(PCheck):
                     resids = [a[0] for a in mol['atoms']]
                     if item['resid'] not in (min(resids), max(resids)):
                         return False
-                    if max(abs(p - q) for p, q in zip(item['expected'], item['actual'])) > 0.6:
+                    if max(abs(p - q) for p, q in zip(item['expected'], item['actual'])) > 1.5:
                         return False
             else:
                 return False
